@@ -231,6 +231,11 @@ func indexTerms(ts []*Term, max int) []*Term {
 			return
 		}
 		seen[t.id] = true
+		if t.Op == "strlit" && t.Name != "" && !seenT[t.id] && len(out) < 4*max {
+			// string literals (condition types, annotation keys) are natural instances for string-typed quantifiers
+			seenT[t.id] = true
+			out = append(out, t)
+		}
 		if t.Op == "ctor" && t.Name == "pe" && !t.open {
 			x := t.Args[1]
 			if x.Op == "+" {
